@@ -98,7 +98,7 @@ class PathInt:
             return self.load(st, op["place"])
         if k == "const":
             if op["promoted"] >= 0:
-                pb = self.F.promoted(self.body, op["promoted"])
+                pb = self.F.promoted(self.body, op["promoted"], op.get("pname"))
                 v = eval_promoted(self.F, pb) if pb else None
                 if v and v[0] == "enum":
                     return ("refv", v)
